@@ -60,7 +60,7 @@ impl BlockDecoder {
                 self.decoder = Some(Box::new(codec));
             }
             oti::FECEncodingID::ReedSolomonGF2M => {
-                log::warn!("Not implemented")
+                return Err(FluteError::new("Reed Solomon GF2M is not implemented"));
             }
             oti::FECEncodingID::RaptorQ => {
                 if let Some(SchemeSpecific::RaptorQ(scheme)) = oti.scheme_specific.as_ref() {
